@@ -20,7 +20,7 @@ use std::sync::atomic::Ordering::Relaxed;
 #[cfg(not(multiqueue2_verif))]
 use std::thread::yield_now;
 
-use crate::countedindex::{past, rm_tag};
+use crate::countedindex::{is_tagged, past, rm_tag};
 #[cfg(not(multiqueue2_verif))]
 extern crate parking_lot;
 #[cfg(multiqueue2_verif)]
@@ -37,7 +37,12 @@ pub fn load_tagless(val: &AtomicUsize) -> usize {
 
 #[inline(always)]
 pub fn check(seq: usize, at: &AtomicUsize, wc: &AtomicUsize) -> bool {
-    let cur_count = load_tagless(at);
+    let raw_count = at.load(Relaxed);
+    if is_tagged(raw_count) {
+        // a slot that was never written holds no sequence number to compare with
+        return wc.load(Relaxed) == 0;
+    }
+    let cur_count = rm_tag(raw_count);
     wc.load(Relaxed) == 0 || seq == cur_count || past(seq, cur_count).1
 
     // if wc.load(Relaxed) == 0 || seq == cur_count || past(seq, cur_count).1 {
